@@ -244,6 +244,8 @@ class AbstractAst:
                 var = class_()
             except KeyError:
                 raise RTAMTException('The type {} does not seem to be imported.'.format(var_type))
+            except (AttributeError, TypeError) as err:
+                raise RTAMTException('The type {0} cannot be instantiated: {1}'.format(var_type, err))
         return var
 
     def declare_var(self, var_name, var_type):
